@@ -85,7 +85,7 @@ class SymFile:
         if "w" in mode:
             FS.written[name] = []
             self.fd = None
-        elif "r" in mode and "+" not in mode:
+        elif "r" in mode and "+" not in mode and "w" not in mode:
             if name not in FS.files:
                 raise FileNotFoundError(name)
             self.fd = FS.files[name]
@@ -236,7 +236,9 @@ class NPfile:
         s = itemsize(dtype)
         n = mv.n / s
         # lazy view: evaluated against the buffer content at access time
-        return FArr(n, lambda j, mv=mv, s=s: elem_from_bytes(dtype, [mv.at(j * s + t) for t in range(s)]), dtype, name="frombuffer")
+        arr = FArr(n, lambda j, mv=mv, s=s: elem_from_bytes(dtype, [mv.at(j * s + t) for t in range(s)]), dtype, name="frombuffer")
+        arr.snap = lambda mv=mv, s=s: (lambda j, f=mv.buf.fn, off=mv.off: elem_from_bytes(dtype, [f(off + j * s + t) for t in range(s)]))
+        return arr
 
     @staticmethod
     def concatenate(parts):
@@ -283,14 +285,14 @@ class UnpackKernels:
         f = 8 // nbits
         if un:
             def k(array, unpacked, tag=tag, f=f):
-                src = array.fn
+                src = array.snapshot()
                 n = array.length
                 unpacked_w = unpacked
                 _write_arr(unpacked_w, n * f, lambda j, src=src: FLD(src(j / f), tag, j % f))
             return k
 
         def kp(array, packed, tag=tag, f=f):
-            src = array.fn
+            src = array.snapshot()
             n = packed.length
             PK = z3.Function(f"PACK{f}", *([IntS] * (f + 1)), IntS)
             _write_arr(packed, n, lambda j, src=src: PK(tag, *[src(j * f + t) for t in range(f)]))
@@ -315,7 +317,7 @@ def frombuffer_rw(buf, dtype=None):
     arr = _frombuffer_ro(buf, dtype)
     if _dt(dtype) == "u1":
         mv = buf if isinstance(buf, MV) else MV(buf)
-        arr.write_through = lambda n, src, mv=mv: mv.write(z3.IntVal(0), n, src)
+        arr.write_through = lambda n, src, lo=0, mv=mv: mv.write(z3.IntVal(0) + lo, n, lambda k, src=src, lo=lo: src(k))
     return arr
 
 
